@@ -1013,7 +1013,21 @@ pub fn generate_c14(rng: &mut Rng) -> RunSpec {
                             (2, true) => Op::SShrinkTo { s: slot, n: Arg::Len(rng.below(20) as i32) },
                             (_, true) => Op::SReserve { s: slot, n: Arg::Free(1) },
                         };
+                        let was_reserve = matches!(op, Op::Reserve { .. } | Op::SReserve { .. });
                         ops.push(op);
+                        if was_reserve && rng.chance(1, 2) {
+                            // a second capacity call while (possibly) every element still sits
+                            // in the old table and the main table is empty
+                            let op2 = match (rng.below(3), set) {
+                                (0, false) => Op::ShrinkToFit { m: slot },
+                                (1, false) => Op::ShrinkTo { m: slot, n: Arg::Abs(rng.below(3) as usize) },
+                                (_, false) => Op::Reserve { m: slot, n: Arg::Cap(1) },
+                                (0, true) => Op::SShrinkToFit { s: slot },
+                                (1, true) => Op::SShrinkTo { s: slot, n: Arg::Abs(rng.below(3) as usize) },
+                                (_, true) => Op::SReserve { s: slot, n: Arg::Cap(1) },
+                            };
+                            ops.push(op2);
+                        }
                     }
                     if !detours.is_empty() && rng.chance(1, 4) {
                         let d = detours.swap_remove(rng.below(detours.len() as u64) as usize);
